@@ -393,9 +393,10 @@ impl Bundle {
         }
         if let Some(bablock) = self.extension_block_by_type_mut(BUNDLE_AGE_BLOCK) {
             if let Some(ba_orig) = bablock.bundle_age_get() {
-                bablock.bundle_age_update(ba_orig + residence_time);
+                let new_age = ba_orig.saturating_add(residence_time);
+                bablock.bundle_age_update(new_age);
                 // bundle age and lifetime are both in milliseconds
-                if ba_orig + residence_time > self.primary.lifetime.as_millis() {
+                if new_age > self.primary.lifetime.as_millis() {
                     return false;
                 }
             }
